@@ -281,7 +281,9 @@ MANIFEST_TEXT['C15'] = {'technique': 'runtime monitoring with fault injection: a
 PROPS['C18'] = {
     'level': 'exploration',
     'runs': [{'name': 'asan-wrap', 'flavour': 'asan-wrap', 'driver': 'drv_c18'},
-             {'name': 'asan-dbg-wrap', 'flavour': 'asan-dbg-wrap', 'driver': 'drv_c18', 'env': {'PV_SCALE': '10'}, 'shards': 4}],
+             {'name': 'asan-dbg-wrap', 'flavour': 'asan-dbg-wrap', 'driver': 'drv_c18', 'env': {'PV_SCALE': '10'}, 'shards': 4},
+             # the shared object as shipped, inside a host program that defines (read-only / aborting) symbols with the names of all internal globals of the library
+             {'name': 'shared-hostile-host', 'flavour': 'shared', 'driver': 'drv_c03', 'env': {'PV_SCALE': '5'}, 'shards': 2}],
     'require': {'rand.creates_ok': 50000, 'rand.single_bit_patterns_ok': 152, 'inject.histories_ok': 1500, 'inject.struct_unmapped_afterwards': 500,
                 'inject.libc_fallback_observed.alloc/malloc': 300, 'inject.libc_fallback_observed.free': 300, 'inject.libc_fallback_observed.time': 300,
                 'inject.last_table.time0.alloc0.free0': 100, 'inject.last_table.time1.alloc1.free1': 100, 'inject.old_seed_freed_after_reinjection': 50},
